@@ -1,6 +1,6 @@
 --------------------------- MODULE MC_DbPathGuard ---------------------------
 EXTENDS DbPathGuard
 MC_Pool == {".", "..", "real", "sub", "lnk_etc", "lnk_real", "lnk_up", "missing", "etc", "etcetera",
-            "usr", "usrlocal", "ssl", "bin", "w"}
+            "usr", "usrlocal", "ssl", "bin", "w", "lnk_via", "lnk_out"}
 MC_Cwd == <<"w">>
 =============================================================================
